@@ -11,10 +11,18 @@
      * a binding statement in an `else:`/`except`/`finally:` suite or in the body of an `if` that is false at import
        time (pydoctor walks `.body` suites only: outside the agreed subset, see C03_orelse_not_walked_observation)
      * decorators other than one of staticmethod/classmethod/property (class bodies only) plus transparent ones
-     * an import or a loop variable re-using a name that is bound to a definition; a base class that is not a class
-       bound in the namespace executing the class statement and not a builtin class.
+     * an import or a loop variable re-using a name that is bound to a definition
+     * a base class expression that is not a name (or module.Name for an imported module) evaluating to a class: looked up
+       as Python does (the namespace executing the class statement, then the module globals, then the builtins); a name
+       that an ENCLOSING class body binds, assigns through self or is itself being defined under is outside the subset
+       (Python does not see those scopes, pydoctor's expandName does)
+     * class decorators other than transparent ones.
    Names bound by `import` and by `for` are auxiliary bindings (VAux): they are in the namespace but are not
-   definitions; `defs` drops them.
+   definitions; `defs` drops them.  What an import binds (a class of another module with its exception flag and members,
+   a module with its classes, anything else) is part of the Import statement (a resolved-bases oracle, see Model/MiniPy.v).
+   Guards (record `guards`): g_shadow rejects a class-level assignment that would shadow an inherited method (known
+   finding C03-inherited-method-shadowed); g_unpack rejects tuple unpacking into a name holding a literal value (known
+   finding C03-type-after-tuple-unpacking).  py_exec has both off; the theorems say which they need.
 
    The spec is validated against CPython itself (adapter 2 of harness/c03.py imports the generated package in a
    subprocess and compares vars(module)/vars(class) with py_exec). *)
@@ -26,18 +34,22 @@ Inductive wrap := WNone | WStatic | WClassM | WProp.
 
 Inductive pyval : Type :=
 | VFun (async : bool) (w : wrap) (doc : option text)      (* a function object, possibly inside staticmethod/classmethod/property *)
-| VClass (exc : bool) (doc : option text) (ns : list (name * pyval))   (* exc: issubclass(cls, BaseException) *)
+| VClass (exc : bool) (doc : option text) (ns : list (name * pyval)) (mro : list (list (name * pyval))) (ivs : list name)
+      (* exc: issubclass(cls, BaseException); ns: vars(cls); mro: the namespaces of the base classes, depth first;
+         ivs: the names the methods of the class assign through self (class_ivars of its body) *)
 | VData (v : option value)                                (* any other object; Some v: the value of a literal *)
-| VAux.                                                   (* module object / imported object / loop variable *)
+| VAux (i : impinfo).                                     (* module object / imported object / loop variable *)
 
 Definition env := list (name * pyval).
 Inductive pscope := PModule | PClass.
 
-Fixpoint plookup (n : name) (e : env) : option pyval :=
-  match e with
+Fixpoint alookup {X} (n : name) (l : list (name * X)) : option X :=
+  match l with
   | [] => None
-  | (m, v) :: r => if text_eqb n m then Some v else plookup n r
+  | (m, v) :: r => if text_eqb n m then Some v else alookup n r
   end.
+
+Definition plookup (n : name) (e : env) : option pyval := alookup n e.
 
 (* namespace[n] = v : a dict keeps the position of an existing key *)
 Fixpoint bind (n : name) (v : pyval) (e : env) : env :=
@@ -46,9 +58,25 @@ Fixpoint bind (n : name) (v : pyval) (e : env) : env :=
   | (m, w) :: r => if text_eqb n m then (m, v) :: r else (m, w) :: bind n v r
   end.
 
-Definition is_aux (v : pyval) : bool := match v with VAux => true | _ => false end.
+Definition is_aux (v : pyval) : bool := match v with VAux _ => true | _ => false end.
 Definition defs (e : env) : env := filter (fun p => negb (is_aux (snd p))) e.
 Definition pkeys (e : env) : list name := map fst e.
+
+(* a data attribute (variable or property) as opposed to a function / class: what pydoctor calls an Attribute *)
+Definition is_data (v : pyval) : bool :=
+  match v with VData _ => true | VFun _ WProp _ => true | _ => false end.
+
+(* attribute lookup along the base classes: the first namespace that binds the name to a definition *)
+Fixpoint pfirst (n : name) (envs : list env) : option bool :=
+  match envs with
+  | [] => None
+  | e :: r => match plookup n e with
+              | Some v => if is_aux v then pfirst n r else Some (is_data v)
+              | None => pfirst n r
+              end
+  end.
+
+Record guards := mkGuards { g_shadow : bool; g_unpack : bool }.
 
 (* ---- builtins ------------------------------------------------------------------------------- *)
 (* every builtin class that is a subclass of BaseException (CPython 3.12, Lib/test/exception_hierarchy.txt) *)
@@ -202,40 +230,127 @@ Section OFold.
 End OFold.
 
 (* ---- bindings -------------------------------------------------------------------------------------- *)
-(* a plain assignment must not rebind a function or class *)
 (* __all__ and __docformat__ are module metadata, not variables to document: outside the subset *)
 Definition py_meta_names : list name :=
   [[95;95;97;108;108;95;95]; [95;95;100;111;99;102;111;114;109;97;116;95;95]]%N.
 
-Definition bind_data (n : name) (v : pyval) (e : env) : option env :=
+(* a plain assignment must not rebind a function or class; under g_shadow it must not give a class a new variable
+   whose name the base classes bind to a function or class *)
+Definition bind_data (g : guards) (pinh : list env) (n : name) (v : pyval) (e : env) : option env :=
   if mem n py_meta_names then None else
   match plookup n e with
-  | Some (VFun _ _ _) | Some (VClass _ _ _) => None
-  | _ => Some (bind n v e)
+  | Some (VFun _ _ _) | Some (VClass _ _ _ _ _) => None
+  | Some (VData _) => Some (bind n v e)
+  | _ => match pfirst n pinh with
+         | Some false => if g_shadow g then None else Some (bind n v e)
+         | _ => Some (bind n v e)
+         end
   end.
 
 (* import / for: must not take over the name of a definition *)
-Definition bind_aux (n : name) (e : env) : option env :=
+Definition bind_aux (n : name) (i : impinfo) (e : env) : option env :=
   match plookup n e with
-  | None | Some VAux => Some (bind n VAux e)
+  | None | Some (VAux _) => Some (bind n (VAux i) e)
   | Some _ => None
   end.
 
-Definition base_exc_py (e : env) (b : name) : option bool :=
+(* ---- base classes -------------------------------------------------------------------------------------- *)
+(* an enclosing scope while a class body executes: its namespace so far, the names its methods assign through self,
+   and the name of the class being defined in it *)
+Record frame := mkFrame { f_env : env; f_ivs : list name; f_pending : name }.
+
+Inductive nres := NReject | NUnbound | NVal (v : pyval).
+
+(* a name a class body assigns through self but does not bind (or only binds to an import / loop variable) is not
+   visible to Python, but pydoctor documents it: outside the subset as a base-class name *)
+Definition own_lookup (e : env) (ivs : list name) (b : name) : nres :=
   match plookup b e with
-  | Some (VClass exc _ _) => Some exc
-  | Some _ => None
-  | None => py_builtin_class b
+  | Some v => if is_aux v && mem b ivs then NReject else NVal v
+  | None => if mem b ivs then NReject else NUnbound
   end.
 
-Fixpoint bases_exc (e : env) (bs : list name) : option bool :=
+Fixpoint outer_lookup (fr : list frame) (b : name) : nres :=
+  match fr with
+  | [] => NUnbound
+  | f :: rest =>
+      if text_eqb b (f_pending f) then NReject else
+      match rest with
+      | [] => own_lookup (f_env f) (f_ivs f) b          (* the module: globals *)
+      | _ :: _ =>        (* an enclosing class body: not visible to Python, but searched by pydoctor *)
+          if mem b (f_ivs f) || (match plookup b (f_env f) with Some _ => true | None => false end)
+          then NReject else outer_lookup rest b
+      end
+  end.
+
+Definition name_lookup (e : env) (ivs : list name) (fr : list frame) (b : name) : nres :=
+  match own_lookup e ivs b with NUnbound => outer_lookup fr b | r => r end.
+
+(* imported members as a namespace *)
+Definition members_env (ms : members_t) : env :=
+  map (fun p => (fst p, match snd p with MNonAttr => VFun false WNone None | MAttr _ => VData None end)) ms.
+
+Definition class_info (v : pyval) : option (bool * list env) :=
+  match v with
+  | VClass x _ ns mro _ => Some (x, ns :: mro)
+  | VAux (IClass x ms) => Some (x, [members_env ms])
+  | _ => None
+  end.
+
+Definition base_info (e : env) (ivs : list name) (fr : list frame) (b : list name) : option (bool * list env) :=
+  match b with
+  | [x] => match name_lookup e ivs fr x with
+           | NVal v => class_info v
+           | NUnbound => match py_builtin_class x with Some exc => Some (exc, []) | None => None end
+           | NReject => None
+           end
+  | [m; x] => match name_lookup e ivs fr m with
+              | NVal (VAux (IModule cls)) =>
+                  match alookup x cls with Some (exc, ms) => Some (exc, [members_env ms]) | None => None end
+              | _ => None
+              end
+  | _ => None
+  end.
+
+Fixpoint bases_info (e : env) (ivs : list name) (fr : list frame) (bs : list (list name)) : option (bool * list env) :=
   match bs with
-  | [] => Some false
-  | b :: r => match base_exc_py e b, bases_exc e r with
-              | Some x, Some y => Some (x || y)
+  | [] => Some (false, [])
+  | b :: r => match base_info e ivs fr b, bases_info e ivs fr r with
+              | Some (x, m1), Some (y, m2) => Some (x || y, m1 ++ m2)
               | _, _ => None
               end
   end.
+
+(* the instance variables of a class: the `self.x = ...` / `self.x: T [= ...]` targets of assignment statements that are
+   statements of a method of the class -- a def in the class body (also inside the body of an if/try/with/for/while there)
+   that is not a property -- or of the body (not else/except/finally) of an if/try/with/for/while inside it, at any depth,
+   but not inside a nested def or class and not under `if __name__ == '__main__':` *)
+Definition self_attr (t : target) : list name := match t with TSelf a => [a] | _ => [] end.
+
+Fixpoint method_ivars (x : stmt) : list name :=
+  match x with
+  | Assign ts _ => flat_map self_attr ts
+  | AnnAssign t _ _ => self_attr t
+  | If TMain _ _ => []
+  | If _ b _ => flat_map method_ivars b
+  | Try b _ _ _ => flat_map method_ivars b
+  | With b => flat_map method_ivars b
+  | For _ b _ => flat_map method_ivars b
+  | While b _ => flat_map method_ivars b
+  | _ => []
+  end.
+
+Fixpoint stmt_ivars (x : stmt) : list name :=
+  match x with
+  | Def _ ds _ body => match def_wrap PClass ds WNone with Some WProp | None => [] | Some _ => flat_map method_ivars body end
+  | If TMain _ _ => []
+  | If _ b _ => flat_map stmt_ivars b
+  | Try b _ _ _ => flat_map stmt_ivars b
+  | With b => flat_map stmt_ivars b
+  | For _ b _ => flat_map stmt_ivars b
+  | While b _ => flat_map stmt_ivars b
+  | _ => []
+  end.
+Definition class_ivars (body : list stmt) : list name := flat_map stmt_ivars body.
 
 (* the object an assignment statement `targets = r` stores *)
 Definition assign_value (sc : pscope) (e : env) (ts : list target) (r : rhs) : option pyval :=
@@ -264,41 +379,53 @@ Definition assign_value (sc : pscope) (e : env) (ts : list target) (r : rhs) : o
 Definition literal_bound (n : name) (e : env) : bool :=
   match plookup n e with Some (VData (Some _)) => true | _ => false end.
 
-(* strict: unpacking into a name that currently holds the value of a literal is outside the strict subset
+(* g_unpack: unpacking into a name that currently holds the value of a literal is outside the guarded subset
    (pydoctor keeps the type inferred from that literal, see C03_infer_stale_after_unpacking_refuted) *)
-Definition bind_unpacked (strict : bool) (n : name) (e : env) : option env :=
-  if strict && literal_bound n e then None else bind_data n (VData None) e.
+Definition bind_unpacked (g : guards) (pinh : list env) (n : name) (e : env) : option env :=
+  if g_unpack g && literal_bound n e then None else bind_data g pinh n (VData None) e.
 
-Definition bind_target (strict : bool) (v : pyval) (t : target) (e : env) : option env :=
+Definition bind_target (g : guards) (pinh : list env) (v : pyval) (t : target) (e : env) : option env :=
   match t with
   | TName n => match v with
                | VFun _ _ _ => Some (bind n v e)        (* only produced by the old-style wrapping of n itself *)
-               | _ => bind_data n v e
+               | _ => bind_data g pinh n v e
                end
-  | TTuple ns => ofold (bind_unpacked strict) ns e
+  | TTuple ns => ofold (bind_unpacked g pinh) ns e
   | TSelf _ => None                                     (* NameError: self is not defined in a module/class body *)
   end.
 
-Fixpoint py_stmt (strict : bool) (x : stmt) (sc : pscope) (e : env) {struct x} : option env :=
+Definition transparent_deco (d : deco) : bool := match deco_wrap d with Some None => true | _ => false end.
+
+(* py_stmt g x sc pinh ivs fr e : execute x in namespace e of a module / class body;
+   pinh: the namespaces of the base classes of the class whose body this is; ivs: the names its methods assign through
+   self; fr: the enclosing scopes (innermost first, the module last) *)
+Fixpoint py_stmt (g : guards) (x : stmt) (sc : pscope) (pinh : list env) (ivs : list name) (fr : list frame) (e : env)
+         {struct x} : option env :=
   match x with
   | Def nm decos asy body =>
       match def_wrap sc decos WNone with
       | Some w => Some (bind nm (VFun asy w (docstring_of body)) e)
       | None => None
       end
-  | Class nm bases body =>
-      match bases_exc e bases, ofold (fun y e' => py_stmt strict y PClass e') body [] with
-      | Some exc, Some ns => Some (bind nm (VClass exc (docstring_of body) ns) e)
-      | _, _ => None
-      end
+  | Class nm bases cdecos body =>
+      if forallb transparent_deco cdecos then
+        match bases_info e ivs fr bases with
+        | Some (exc, mro) =>
+            match ofold (fun y e' => py_stmt g y PClass mro (class_ivars body) (mkFrame e ivs nm :: fr) e') body [] with
+            | Some ns => Some (bind nm (VClass exc (docstring_of body) ns mro (class_ivars body)) e)
+            | None => None
+            end
+        | None => None
+        end
+      else None
   | Assign ts r =>
       match assign_value sc e ts r with
-      | Some v => ofold (bind_target strict v) ts e
+      | Some v => ofold (bind_target g pinh v) ts e
       | None => None
       end
   | AnnAssign (TName n) _ (Some r) =>
       match assign_value sc e [TName n] r with
-      | Some v => bind_target strict v (TName n) e
+      | Some v => bind_target g pinh v (TName n) e
       | None => None
       end
   | AnnAssign _ _ _ => None
@@ -312,31 +439,33 @@ Fixpoint py_stmt (strict : bool) (x : stmt) (sc : pscope) (e : env) {struct x} :
   | ExprStr _ => Some e
   | Other => Some e
   | If TMain _ orelse => if nonbinding_suite orelse then Some e else None          (* body not executed on import *)
-  | If TTrue body orelse => if nonbinding_suite orelse then ofold (fun y e' => py_stmt strict y sc e') body e else None
+  | If TTrue body orelse => if nonbinding_suite orelse then ofold (fun y e' => py_stmt g y sc pinh ivs fr e') body e else None
   | If TFalse body orelse => if nonbinding_suite body && nonbinding_suite orelse then Some e else None
   | Try body h o f =>
       if nonbinding_suite h && nonbinding_suite o && nonbinding_suite f
-      then ofold (fun y e' => py_stmt strict y sc e') body e else None
-  | With body => ofold (fun y e' => py_stmt strict y sc e') body e
+      then ofold (fun y e' => py_stmt g y sc pinh ivs fr e') body e else None
+  | With body => ofold (fun y e' => py_stmt g y sc pinh ivs fr e') body e
   | For tgt body orelse =>
       if nonbinding_suite orelse then
-        match bind_aux tgt e with
-        | Some e1 => ofold (fun y e' => py_stmt strict y sc e') body e1
+        match bind_aux tgt IOther e with
+        | Some e1 => ofold (fun y e' => py_stmt g y sc pinh ivs fr e') body e1
         | None => None
         end
       else None
-  | While body orelse => if nonbinding_suite orelse then ofold (fun y e' => py_stmt strict y sc e') body e else None
-  | Import ns => ofold bind_aux ns e
+  | While body orelse => if nonbinding_suite orelse then ofold (fun y e' => py_stmt g y sc pinh ivs fr e') body e else None
+  | Import ns => ofold (fun p e' => bind_aux (fst p) (snd p) e') ns e
   end.
 
-Definition py_body (strict : bool) (sc : pscope) (body : list stmt) (e : env) : option env :=
-  ofold (fun y e' => py_stmt strict y sc e') body e.
+Definition py_body (g : guards) (sc : pscope) (pinh : list env) (ivs : list name) (fr : list frame)
+           (body : list stmt) (e : env) : option env :=
+  ofold (fun y e' => py_stmt g y sc pinh ivs fr e') body e.
 
-(* py_exec: the agreed subset.  py_exec_strict: the same semantics, minus programs that unpack a tuple into a
-   name holding a literal value (the exact trigger of known finding C03-type-after-tuple-unpacking); used by
-   C03_infer_type_program_partial only.  py_exec_strict p = Some e  implies  py_exec p = Some e. *)
-Definition py_exec (prog : list stmt) : option env := py_body false PModule prog [].
-Definition py_exec_strict (prog : list stmt) : option env := py_body true PModule prog [].
+(* py_exec: the agreed subset (no guard).  py_exec_names: minus class variables shadowing an inherited method.
+   py_exec_strict: minus, also, tuple unpacking into a name holding a literal.  Each is a restriction of the previous one. *)
+Definition py_exec_g (g : guards) (prog : list stmt) : option env := py_body g PModule [] [] [] prog [].
+Definition py_exec (prog : list stmt) : option env := py_exec_g (mkGuards false false) prog.
+Definition py_exec_names (prog : list stmt) : option env := py_exec_g (mkGuards true false) prog.
+Definition py_exec_strict (prog : list stmt) : option env := py_exec_g (mkGuards true true) prog.
 
 (* ---- the type of a literal value ---------------------------------------------------------------------- *)
 Definition py_type_name (v : value) : text :=
@@ -374,9 +503,9 @@ Definition ty_sexp (v : value) : sexp :=
 Fixpoint pyval_sexp (v : pyval) : sexp :=
   match v with
   | VFun a w d => L [A 0; of_bool a; A (wrap_Z w); of_option of_text d]
-  | VClass e d ns => L [A 1; of_bool e; of_option of_text d; L (map (fun p => L [of_text (fst p); pyval_sexp (snd p)]) ns)]
+  | VClass e d ns _ _ => L [A 1; of_bool e; of_option of_text d; L (map (fun p => L [of_text (fst p); pyval_sexp (snd p)]) ns)]
   | VData t => L [A 2; of_option ty_sexp t]
-  | VAux => L [A 3]
+  | VAux _ => L [A 3]
   end.
 
 Definition env_sexp (e : env) : sexp := L (map (fun p => L [of_text (fst p); pyval_sexp (snd p)]) e).
